@@ -274,6 +274,8 @@ def load_known():
 
 def _sub(want, got):
     """want is contained in got (dicts recursively, everything else by equality)"""
+    if isinstance(want, dict) and set(want) == {"$nonempty"}:      # a list field that is / is not empty
+        return bool(got) == bool(want["$nonempty"])
     if isinstance(want, dict):
         return isinstance(got, dict) and all(k in got and _sub(v, got[k]) for k, v in want.items())
     return want == got
